@@ -199,6 +199,24 @@ reg('rand_F2', _g_f2,
     lambda nq, a, s: nq.random.rand_F2(*a['size'], not_zero=a['not_zero'], not_one=a['not_one'], seed=s),
     lambda nq, a, v: mb.f2(a, v), weight=2, branch=lambda a: f"nz={a['not_zero']},no={a['not_one']}")
 
+def _c_f2_forced(nq, a, s):
+    from simkit import seams
+    # the generator object is a documented form of `seed`; the scheduler forces `m` rejected draws first (each has positive probability)
+    g = seams.ForcedBitsGenerator(seed=0 if s is None else s, m=a['m'], value=a['value'])
+    return nq.random.rand_F2(*a['size'], not_zero=a['not_zero'], not_one=a['not_one'], seed=g)
+
+
+def _g_f2_forced(r):
+    nz, no = r.choice([(True, False), (False, True), (True, True)])
+    size = r.choice([[1], [2], [3], [1, 2], [2, 2]])
+    if nz and no and int(np.prod(size)) <= 1:
+        size = [2]
+    value = 0 if (nz and not no) else (1 if (no and not nz) else r.choice([0, 1]))
+    return {'size': size, 'not_zero': nz, 'not_one': no, 'm': r.choice([0, 1, 3, 8, 19, 20, 21, 40, 64, 150]), 'value': value}
+
+
+reg('rand_F2[forced_rejections]', _g_f2_forced, _c_f2_forced, lambda nq, a, v: mb.f2(a, v), weight=1.5, branch=lambda a: f"m={'0' if a['m'] == 0 else ('<=20' if a['m'] <= 20 else '>20')}")
+
 reg('rand_SpF2',
     lambda r: {'n': r.randint(1, 3) if r.random() < 0.8 else r.choice([5, 8, 20, 33, 40, 64]), 'return_kind': r.choice(['matrix', 'int_tuple', 'int_tuple-matrix'])},
     lambda nq, a, s: nq.random.rand_SpF2(a['n'], return_kind=a['return_kind'], seed=s),
